@@ -55,10 +55,23 @@ def register(reg):
     reg.contract(M, 'System.msg', params={'section': 'Str', 'msg': 'Str', 'thresh': 'Int', 'topthresh': 'Int', 'nonl': 'Bool',
                                           'wantsnl': 'Bool', 'once': 'Bool'},
                  modifies=['violations', 'once_msgs', 'needsnl'], raises={}, assumed=True, source='verified under C16')
+    # reportErrors is verified here as well (same contract as under C16): it runs outside every catch-all, an exception in it ends the run
+    reg.contract(M, 'Documentable.report', params={'descr': 'Str', 'section': 'Str', 'lineno_offset': 'Int', 'thresh': 'Int'},
+                 modifies=['violations', 'once_msgs', 'needsnl'], raises={}, assumed=True, source='verified under C16',
+                 ensures=['self.system.violations == old(self.system.violations) + (1 if thresh < 0 else 0)'])
+    reg.contract(MK, 'ParseError.linenum', returns='Opt[Int]', raises={}, pure=True, reads=['_linenum'],
+                 ensures=['(result is None) == (self._linenum is None)', 'implies(self._linenum is not None, result == self._linenum + 1)'])
+    reg.contract(MK, 'ParseError.descr', returns='Str', raises={}, pure=True, reads=['_descr'], ensures=['result == self._descr'])
+    FRESH = 'len(errs) > 0 and obj.fullName() not in old(obj.system.parse_errors[section])'
     reg.contract(E, 'reportErrors', params={'obj': 'Ref[Documentable]', 'errs': 'Seq[Ref[ParseError]]', 'section': 'Str'},
-                 modifies=['violations', 'once_msgs', 'needsnl', 'parse_errors'], raises={}, assumed=True,
-                 ensures=['implies(len(errs) > 0, obj.fullName() in obj.system.parse_errors[section])'],
-                 source='verified under C16 (once per object and section, one message per error)')
+                 modifies=['violations', 'once_msgs', 'needsnl', 'parse_errors'], raises={},
+                 ensures=['implies(len(errs) > 0, obj.fullName() in obj.system.parse_errors[section])',
+                          # reported against that object: once per object (qualified name) and section, one message per error
+                          'obj.system.violations == old(obj.system.violations) + (len(errs) if ' + FRESH + ' else 0)'],
+                 loops={0: Loop(index='i', modifies=['violations', 'once_msgs', 'needsnl'],
+                                invariant=['obj.system.violations == old(obj.system.violations) + i',
+                                           'obj.fullName() in obj.system.parse_errors[section]'],
+                                asserts=["arg_of('Documentable.report', 'self') == obj", "arg_of('Documentable.report', 'section') == section"])})
     reg.contract(M, 'Documentable.fullName', returns='Str', pure=True, reads=['name', 'parent'], raises={}, assumed=True,
                  source='verified under C02')
     reg.contract(M, 'Documentable.module', returns='Ref[Module]', pure=True, reads=['parentMod'], raises={}, assumed=True,
@@ -200,3 +213,23 @@ def register(reg):
     reg.contract(E, 'format_summary', params={'obj': 'Ref[Documentable]'}, returns='Obj[Tag]', raises={},    # the one-line summary always succeeds
                  modifies=['violations', 'once_msgs', 'needsnl', 'parse_errors', '__items__', '_descr', '_linenum', '_fatal', 'parsed_docstring',
                            'parsed_summary', '_summary', 'summary', 'other_docs', 'maxchars', '_fromstan', 'fields', '_stan', '_compact'])
+
+    # ---- the full body: the fallback context is the object that holds the docstring -----------------------------
+    reg.assume_ext('twisted.web.template.tags.div', params={}, returns='Obj[Tag]', raises={}, source='stan tag')
+    reg.assume_ext('twisted.web.template.tags.p', params={'text': 'Str', 'class_': 'Str'}, returns='Obj[Tag]', raises={},
+                   ensures=["implies(class_ == 'pre', result == plain_stan(text))"], source='stan constructor: a <p> tag around the text')
+    reg.assume_ext('<Tag>.__call__', params={'self': 'Obj[Tag]', 'child': 'Any'}, returns='Obj[Tag]', raises={}, source='stan: add a child')
+    reg.contract(E, 'unwrap_docstring_stan', params={'stan': 'Obj[Tag]'}, returns='Obj[Tag]', raises={}, assumed=True, pure=True,
+                 source='wraps the body in a paragraph when needed')
+    reg.contract(E, 'format_docstring', params={'obj': 'Ref[Documentable]'},
+                 region={'name': 'body', 'start': 'source = ensure_parsed_docstring(obj)', 'end': 'fh = FieldHandler(obj)'},
+                 locals={'source': 'RefN[Documentable]'},
+                 modifies=['violations', 'once_msgs', 'needsnl', 'parse_errors', '__items__', '_descr', '_linenum', '_fatal', 'parsed_docstring',
+                           '_stan', 'parsed_summary'],
+                 raises={},
+                 ensures=["called('safe_to_stan') == (source is not None)",
+                          # an inherited docstring is rendered, and falls back, in the context of the object it is defined on
+                          "implies(called('safe_to_stan'), arg_of('safe_to_stan', 'ctx') == source and "
+                          "arg_of('safe_to_stan', 'parsed_doc') == obj.parsed_docstring and arg_of('safe_to_stan', 'report') and "
+                          "arg_of('safe_to_stan', 'fallback') == ext('pydoctor.epydoc2stan.format_docstring_fallback') and "
+                          "arg_of('safe_to_stan', 'section') == 'docstring')"])
